@@ -190,3 +190,16 @@ pub fn replay(v: &Value, path: &str) -> i32 {
         0
     }
 }
+
+/// libFuzzer entry: bytes -> (text, offset); panics with the violation document on failure.
+pub fn fuzz_one(data: &[u8]) {
+    if data.is_empty() {
+        return;
+    }
+    let s = String::from_utf8_lossy(&data[1..]).into_owned();
+    let o = (data[0] as usize * (s.len() + 2)) >> 8;
+    let mut ev = Evidence::new("C12", Tier::Thorough, 0, "fuzz");
+    if let Some(v) = check_one(&s, o, &mut ev) {
+        panic!("VIOLATION-DOC {}", v);
+    }
+}
